@@ -719,6 +719,33 @@ func ChangeLabelIndex(d dvid.Data, v dvid.VersionID, label uint64, delta labels.
 	return putCachedLabelIndex(d, v, idx)
 }
 
+// addToLabelIndex adds the blocks and supervoxels of addIdx to the stored index of the given
+// label and returns the resulting index.  Like ChangeLabelIndex and cleaveIndex it reads, modifies
+// and writes the index under the label's shard lock, so that it cannot lose, or be lost to, another
+// mutation of the same index.  Nothing is notified and no other shard lock is taken under the lock.
+func addToLabelIndex(d dvid.Data, v dvid.VersionID, label uint64, addIdx *labels.Index, mutInfo dvid.MutInfo) (*labels.Index, error) {
+	shard := label % numIndexShards
+	indexMu[shard].Lock()
+	defer indexMu[shard].Unlock()
+
+	idx, err := getCachedLabelIndex(d, v, label)
+	if err != nil {
+		return nil, err
+	}
+	if idx == nil {
+		return nil, fmt.Errorf("label %d no longer has an index", label)
+	}
+	verifhook.Yield("labelmap.addToLabelIndex.read")
+	if err := idx.Add(addIdx, mutInfo); err != nil {
+		return nil, err
+	}
+	idx.Label = label
+	if err := putCachedLabelIndex(d, v, idx); err != nil {
+		return nil, err
+	}
+	return idx, nil
+}
+
 // getMergedIndex gets index data for all labels in a set with possible bounds.
 func (d *Data) getMergedIndex(v dvid.VersionID, mergedIdxs map[uint64]*labels.Index, mutInfo dvid.MutInfo, bounds dvid.Bounds) (*labels.Index, error) {
 	combinedIdx := new(labels.Index)
